@@ -78,6 +78,11 @@ mod conversion;
 #[cfg(all(test, feature = "verif"))]
 #[path = "/verif/harness/relayer_write/mod.rs"]
 mod verif_harness;
+/// Reports a completed write of the submission state file to the verification harness.
+#[cfg(all(test, feature = "verif"))]
+pub(super) fn verif_state_file_written(contents: &str) {
+    verif_harness::state_file_written(contents, true);
+}
 use conversion::NextSubmission;
 
 /// A simple, passive object to allow the Celestia fee to be returned along with the
